@@ -799,7 +799,13 @@ def _desugar_factors_with_weights(design: List[Factor],
                 # Uses `replacements`:
                 f.desugar_for_weights(replacements)
         # Returned `replacements` is also used for constraint desugaring
-        return (list(chain.from_iterable([replacements.get(f, [f]) for f in design])),
+        # A rewritten derived factor is recorded as a pair of the same factor, so
+        # drop repeats while keeping the order.
+        new_design = cast(List[Factor], [])
+        for f in chain.from_iterable([replacements.get(f, [f]) for f in design]):
+            if f not in new_design:
+                new_design.append(f)
+        return (new_design,
                 [[replacements.get(f, [f, f])[1] for f in c] for c in crossings],
                 replacements)
 
